@@ -6,6 +6,7 @@ import Gozod.Model.Msg
 import Gozod.Model.Config
 import Gozod.Gen.MsgWiring
 import Gozod.Gen.LocaleTable
+import Gozod.Gen.IssueSites
 namespace Gozod.C18
 open Gozod.Msg
 
@@ -82,6 +83,9 @@ def gaps : List (String × SrcSet) := [
   ("format-email", .ofString "s"), ("format-regex", .ofString "s"), ("format-starts", .ofString "s"),
   ("format-includes", .ofString "s"), ("format-json", .ofString "s"), ("multiple-int", .ofString "s"), ("multiple-float", .ofString "s"),
   ("small-set", .ofString "s"), ("format-lowercase", .ofString "s"), ("small-string-length", .ofString "s"), ("small-int-positive", .ofString "s"),
+  -- the same on derived inputs (prefault / coerced / overwritten values)
+  ("small-string-prefault", .ofString "s"), ("small-int-prefault", .ofString "s"), ("small-string-coerced", .ofString "s"),
+  ("small-string-trimmed", .ofString "s"), ("small-slice-prefault", .ofString "sp"),
   -- container / union / literal / network-format schemas ignore their own message for their type issue
   ("type-object", .ofString "s"), ("type-slice", .ofString "s"), ("type-array", .ofString "s"), ("type-record", .ofString "s"),
   ("type-map", .ofString "s"), ("type-literal", .ofString "s"), ("union", .ofString "s"), ("union-discriminated", .ofString "s"),
@@ -96,13 +100,27 @@ def gaps : List (String × SrcSet) := [
 
 def gapOf (leaf : String) : SrcSet := (gaps.lookup leaf).getD SrcSet.empty
 
+/-- a position that does not forward the caller's context to the schema nested in it (regenerated `Gen.positions`: today
+    only the KEY schema of a record — types/record.go parseSchemaValueAny parses the key without the context, open finding
+    `wire:@record-key:missing-p`) loses the per-parse map for every issue below it -/
+def posGap (wrapper : String) : SrcSet :=
+  match Gozod.Gen.positions.find? (fun p => p.name == wrapper) with
+  | some p => if p.forwardsCtx then SrcSet.empty else .ofString "p"
+  | none => SrcSet.empty
+
+def SrcSet.union (a b : SrcSet) : SrcSet :=
+  ⟨a.check || b.check, a.schema || b.schema, a.parse || b.parse, a.custom || b.custom, a.locale || b.locale⟩
+
+/-- the gap of a site: the leaf's, and the position's -/
+def gapAt (s : Site) : SrcSet := SrcSet.union (gapOf s.leaf) (posGap s.wrapper)
+
 /-- the full statement over the regenerated table: every site hands every applicable source on -/
 def c18_wired_full : Prop := ∀ s ∈ Gozod.Gen.sites, s.applicable.subset s.passes = true
 
 /-- **c18_wired_partial** (decided over the wiring regenerated from the code): outside the listed
     gaps every site passes every applicable source. -/
 theorem c18_wired_partial :
-    ∀ s ∈ Gozod.Gen.sites, (s.applicable.diff (gapOf s.leaf)).subset s.passes = true := by
+    ∀ s ∈ Gozod.Gen.sites, (s.applicable.diff (gapAt s)).subset s.passes = true := by
   decide +kernel
 
 theorem subset_component (p c a g : Bool) (h1 : (!(a && !g) || p) = true) (h2 : (!c || a) = true)
@@ -127,7 +145,7 @@ theorem subset_of_gap (ps cfg ap g : SrcSet) (hw : (ap.diff g).subset ps = true)
     top-level / nested position) and for every configuration of the applicable sources that stays
     outside the site's gap, the message comes from the first configured source. -/
 theorem c18_all_sites_partial (s : Site) (hs : s ∈ Gozod.Gen.sites) (cfg : SrcSet)
-    (happl : cfg.subset s.applicable = true) (hgap : (cfg.inter (gapOf s.leaf)) = SrcSet.empty) :
+    (happl : cfg.subset s.applicable = true) (hgap : (cfg.inter (gapAt s)) = SrcSet.empty) :
     siteMessage s.passes cfg = firstConfigured cfg := by
   rw [site_winner]
   exact firstConfigured_inter _ _ (subset_of_gap _ _ _ _ (c18_wired_partial s hs) happl hgap)
@@ -155,37 +173,322 @@ theorem c18_base_nonempty : ∀ s ∈ Gozod.Gen.sites, s.base = "d" := by decide
 example : (⟨"type-string", "slice-element", "invalid_type", .ofString "spgl", .ofString "spgl", "d", .ofString "spgl"⟩ : Site)
     ∈ Gozod.Gen.sites := by decide +kernel
 
+/-! ## Round 4: the static catalogue of issue sites (go/ast translator), over the WHOLE table -/
+
+theorem dropSources_empty {ρ : Type} (s : Sources ρ) : dropSources SrcSet.empty s = s := by
+  cases s; simp [dropSources, SrcSet.empty]
+
+/-- a site that drops nothing satisfies the priority rule for arbitrary error maps -/
+theorem site_priority {ρ : Type} (st : IssueSite) (h : st.drops = SrcSet.empty) (s : Sources ρ) (iss : ρ) :
+    finalize (dropSources st.drops s) iss
+      = firstNonEmpty [s.rawMsg, app s.inst iss, app s.parse iss, app s.custom iss, app s.locale iss] (s.dflt iss) := by
+  rw [h, dropSources_empty, finalize_priority]
+
+/-- dropping sources that are not configured changes nothing -/
+theorem dropSources_unconfigured {ρ : Type} (d : SrcSet) (s : Sources ρ)
+    (hc : d.check = true → s.rawMsg = "") (hs : d.schema = true → s.inst = none) (hp : d.parse = true → s.parse = none)
+    (hg : d.custom = true → s.custom = none) (hl : d.locale = true → s.locale = none) : dropSources d s = s := by
+  obtain ⟨a, b, c, e, f⟩ := d
+  cases s
+  cases a <;> cases b <;> cases c <;> cases e <;> cases f <;> simp_all [dropSources]
+
+/-- call (file:func:callee) ↦ sources it does not hand on.  Mechanisms:
+    * `s`  the issue is built without the raising schema's instance (issues.Create…Error without Inst) — the schema's own
+           message cannot be consulted (behavioural classes `wire:type-*:missing-s`, `wire:union*:missing-s`, …)
+    * `p`  FinalizeIssue gets nil / a fresh ParseContext (CreateArrayValidationIssues, MapPropertiesToIssue's element_error,
+           object.go's type-conversion errors, intersection's merge errors), or a nested Parse is called without the
+           context (record key schema, lazy.extractPtr, function input/output, property check) — `wire:*:missing-*p`
+    * `spgl` a message is written before the chain runs (Enum, missing object field, foreign error texts) -/
+def siteGaps : List (String × SrcSet) := [
+  ("internal/checks/factory.go:executePropertyCheck:ParseAny", .ofString "p"),
+  ("internal/engine/modifiers.go:processModifiersCore:CreateNonOptionalError", .ofString "s"),
+  ("internal/engine/modifiers.go:processModifiersCore:CreateInvalidTypeError", .ofString "s"),
+  ("internal/engine/parser.go:ParseComplexStrict:CreateInvalidTypeError", .ofString "s"),
+  ("internal/engine/parser.go:handleNilPointer:CreateInvalidTypeError", .ofString "s"),
+  ("internal/engine/parser.go:handleNilComplex:CreateInvalidTypeError", .ofString "s"),
+  ("internal/engine/parser.go:coerceToType:CreateInvalidTypeError", .ofString "s"),
+  ("internal/engine/parser.go:convertNonNilToConstraintType:CreateInvalidTypeError", .ofString "s"),
+  ("internal/engine/parser.go:convertToDoublePtr:CreateInvalidTypeError", .ofString "s"),
+  ("internal/engine/parser.go:convertToPtr:CreateInvalidTypeError", .ofString "s"),
+  ("internal/engine/parser.go:convertToValue:CreateInvalidTypeError", .ofString "s"),
+  ("internal/engine/parser.go:parseTypedValue:CreateInvalidTypeError", .ofString "s"),
+  ("internal/engine/parser.go:validateAndReturn:CreateInvalidTypeError", .ofString "s"),
+  ("internal/engine/parser.go:parsePrimitiveStrictNil:CreateInvalidTypeError", .ofString "s"),
+  ("internal/engine/parser.go:parsePrimitiveStrictWithChecks:CreateInvalidTypeError", .ofString "s"),
+  ("internal/engine/parser.go:handleNilPointerStrict:CreateInvalidTypeError", .ofString "s"),
+  ("internal/engine/parser.go:applyTransformToResult:CreateInvalidTypeError", .ofString "s"),
+  ("internal/engine/parser.go:parseComplexValue:CreateInvalidTypeError", .ofString "s"),
+  ("internal/issues/creators.go:extractFirstRawIssue:CreateIssue", .ofString "spgl"),
+  ("internal/issues/creators.go:CreateArrayValidationIssues:FinalizeIssue", .ofString "p"),
+  ("internal/issues/finalize.go:FinalizeIssue:MapPropertiesToIssue", .ofString "p"),
+  ("internal/issues/finalize.go:MapPropertiesToIssue:FinalizeIssue", .ofString "p"),
+  ("types/array.go:ZodArray.Parse:CreateInvalidTypeError", .ofString "s"),
+  ("types/array.go:ZodArray.StrictParse:CreateTypeConversionError", .ofString "s"),
+  ("types/array.go:ZodArray.validate:CreateInvalidTypeError", .ofString "s"),
+  ("types/array.go:ZodArray.validate:CreateArrayValidationIssues", .ofString "p"),
+  ("types/bigint.go:ZodBigInt.parseNilInput:CreateNonOptionalError", .ofString "s"),
+  ("types/bigint.go:ZodBigInt.parseNilInput:CreateInvalidTypeError", .ofString "s"),
+  ("types/discriminated_union.go:ZodDiscriminatedUnion.Parse:CreateInvalidSchemaError", .ofString "s"),
+  ("types/discriminated_union.go:ZodDiscriminatedUnion.Parse:CreateInvalidTypeError", .ofString "s"),
+  ("types/discriminated_union.go:ZodDiscriminatedUnion.Parse:CreateMissingRequiredError", .ofString "s"),
+  ("types/discriminated_union.go:ZodDiscriminatedUnion.parseVariant:CreateInvalidUnionError", .ofString "s"),
+  ("types/discriminated_union.go:ZodDiscriminatedUnion.StrictParse:CreateTypeConversionError", .ofString "s"),
+  ("types/enum.go:ZodEnum.validateEnum:CreateIssue", .ofString "spgl"),
+  ("types/enum.go:ZodEnum.validateEnum:CreateArrayValidationIssues", .ofString "p"),
+  ("types/function.go:newFuncTypeError:FinalizeIssue", .ofString "s"),
+  ("types/function.go:ZodFunction.validateInput:Parse", .ofString "p"),
+  ("types/function.go:ZodFunction.validateOutput:Parse", .ofString "p"),
+  ("types/intersection.go:collectSchemaIssues:FinalizeIssue", .ofString "s"),
+  ("types/intersection.go:ZodIntersection.validateValue:CreateCustomIssue", .ofString "spgl"),
+  ("types/intersection.go:ZodIntersection.validateValue:FinalizeIssue", .ofString "s"),
+  ("types/intersection.go:ZodIntersection.StrictParse:CreateCustomIssue", .ofString "spgl"),
+  ("types/intersection.go:ZodIntersection.StrictParse:FinalizeIssue", .ofString "s"),
+  ("types/intersection.go:mergeValues:CreateIncompatibleTypesError", .ofString "sp"),
+  ("types/intersection.go:mergeMaps:CreateIncompatibleTypesError", .ofString "sp"),
+  ("types/intersection.go:mergeSlices:CreateIncompatibleTypesError", .ofString "sp"),
+  ("types/lazy.go:ZodLazy.Parse:CreateNonOptionalError", .ofString "s"),
+  ("types/lazy.go:ZodLazy.Parse:CreateInvalidTypeError", .ofString "s"),
+  ("types/lazy.go:ZodLazy.extractPtr:Parse", .ofString "p"),
+  ("types/lazy.go:newLazyTypeError:FinalizeIssue", .ofString "s"),
+  ("types/literal.go:ZodLiteral.validateLiteral:CreateInvalidTypeError", .ofString "s"),
+  ("types/map.go:ZodMap.Parse:CreateTypeConversionError", .ofString "s"),
+  ("types/map.go:ZodMap.StrictParse:CreateTypeConversionError", .ofString "s"),
+  ("types/map.go:ZodMap.extractType:CreateNonOptionalError", .ofString "s"),
+  ("types/map.go:ZodMap.extractType:CreateInvalidTypeError", .ofString "s"),
+  ("types/map.go:ZodMap.validateMap:CreateArrayValidationIssues", .ofString "p"),
+  ("types/map.go:ZodMap.collectErrors:CreateIssue", .ofString "spgl"),
+  ("types/never.go:newNeverValidator:CreateInvalidTypeError", .ofString "s"),
+  ("types/nil.go:nilValidator:CreateInvalidTypeError", .ofString "s"),
+  ("types/object.go:ZodObject.Parse:CreateTypeConversionError", .ofString "sp"),
+  ("types/object.go:ZodObject.extractObject:CreateTypeConversionError", .ofString "sp"),
+  ("types/object.go:collectFieldErrors:CreateIssue", .ofString "spgl"),
+  ("types/object.go:ZodObject.validateObject:CreateIssue", .ofString "spgl"),
+  ("types/object.go:ZodObject.validateObject:CreateArrayValidationIssues", .ofString "p"),
+  ("types/record.go:ZodRecord.Parse:CreateTypeConversionError", .ofString "s"),
+  ("types/record.go:ZodRecord.StrictParse:CreateTypeConversionError", .ofString "s"),
+  ("types/record.go:ZodRecord.validateRecord:CreateInvalidTypeError", .ofString "s"),
+  ("types/record.go:ZodRecord.parseSchemaValueAny:Parse", .ofString "p"),
+  ("types/record.go:ZodRecord.parseSchemaValueAny:Call", .ofString "p"),
+  ("types/set.go:ZodSet.Parse:CreateTypeConversionError", .ofString "s"),
+  ("types/set.go:ZodSet.validateForEngine:CreateArrayValidationIssues", .ofString "p"),
+  ("types/set.go:ZodSet.collectErrors:CreateIssue", .ofString "spgl"),
+  ("types/slice.go:ZodSlice.validateForEngine:CreateIssue", .ofString "spgl"),
+  ("types/slice.go:ZodSlice.validateForEngine:CreateArrayValidationIssues", .ofString "p"),
+  ("types/struct.go:ZodStruct.Parse:CreateTypeConversionError", .ofString "s"),
+  ("types/struct.go:ZodStruct.createStructTypeError:CreateCustomError", .ofString "s"),
+  ("types/struct.go:ZodStruct.createStructTypeError:CreateInvalidTypeError", .ofString "s"),
+  ("types/struct.go:ZodStruct.parseStructWithDefaults:CreateInvalidTypeError", .ofString "s"),
+  ("types/struct.go:ZodStruct.parseStructWithDefaults:CreateIssue", .ofString "spgl"),
+  ("types/struct.go:ZodStruct.parseStructWithDefaults:CreateArrayValidationIssues", .ofString "p"),
+  ("types/tuple.go:ZodTuple.Parse:CreateInvalidTypeError", .ofString "s"),
+  ("types/tuple.go:ZodTuple.StrictParse:CreateTypeConversionError", .ofString "s"),
+  ("types/tuple.go:collectParseIssues:CreateIssue", .ofString "spgl"),
+  ("types/tuple.go:ZodTuple.validateTupleForEngine:CreateTooSmallError", .ofString "s"),
+  ("types/tuple.go:ZodTuple.validateTupleForEngine:CreateTooBigError", .ofString "s"),
+  ("types/tuple.go:ZodTuple.validateTupleForEngine:CreateArrayValidationIssues", .ofString "p"),
+  ("types/union.go:ZodUnion.validate:CreateInvalidSchemaError", .ofString "s"),
+  ("types/union.go:ZodUnion.validate:CreateInvalidUnionError", .ofString "s"),
+  ("types/union.go:ZodUnion.StrictParse:CreateTypeConversionError", .ofString "s"),
+  ("types/xor.go:ZodXor.validate:CreateInvalidSchemaError", .ofString "s"),
+  ("types/xor.go:ZodXor.validate:CreateInvalidUnionError", .ofString "s"),
+  ("types/xor.go:ZodXor.validate:CreateInvalidXorError", .ofString "s"),
+  ("types/xor.go:ZodXor.StrictParse:CreateTypeConversionError", .ofString "s")]
+
+def siteGapOf (gkey : String) : SrcSet := (siteGaps.lookup gkey).getD SrcSet.empty
+
+/-- the full statement over the regenerated static table: no call drops a source -/
+def c18_sites_full : Prop := ∀ s ∈ Gozod.Gen.issueSites, s.drops = SrcSet.empty
+
+/-- **c18_sites_partial** (decided over EVERY call the translator finds in the source): each call that creates an issue,
+    reaches FinalizeIssue or parses a nested schema hands on every source, except what `siteGaps` lists for it.  A new call
+    that forgets the context / instance / config, or writes a message early, changes this obligation. -/
+theorem c18_sites_partial : ∀ s ∈ Gozod.Gen.issueSites, s.drops.subset (siteGapOf s.gkey) = true := by
+  decide +kernel
+
+theorem subset_true_imp (a b : SrcSet) (h : a.subset b = true) :
+    (a.check = true → b.check = true) ∧ (a.schema = true → b.schema = true) ∧ (a.parse = true → b.parse = true) ∧
+    (a.custom = true → b.custom = true) ∧ (a.locale = true → b.locale = true) := by
+  obtain ⟨a1, a2, a3, a4, a5⟩ := a
+  obtain ⟨b1, b2, b3, b4, b5⟩ := b
+  revert h
+  cases a1 <;> cases a2 <;> cases a3 <;> cases a4 <;> cases a5 <;>
+  cases b1 <;> cases b2 <;> cases b3 <;> cases b4 <;> cases b5 <;> simp [SrcSet.subset]
+
+/-- **c18_sites_all_partial**: at every call of the table, for ARBITRARY error maps, whenever the sources listed as the
+    call's gap are not configured the message is the first non-empty of the five sources, else the built-in text. -/
+theorem c18_sites_all_partial {ρ : Type} (st : IssueSite) (hst : st ∈ Gozod.Gen.issueSites) (s : Sources ρ) (iss : ρ)
+    (hc : (siteGapOf st.gkey).check = true → s.rawMsg = "") (hs : (siteGapOf st.gkey).schema = true → s.inst = none)
+    (hp : (siteGapOf st.gkey).parse = true → s.parse = none) (hg : (siteGapOf st.gkey).custom = true → s.custom = none)
+    (hl : (siteGapOf st.gkey).locale = true → s.locale = none) :
+    finalize (dropSources st.drops s) iss
+      = firstNonEmpty [s.rawMsg, app s.inst iss, app s.parse iss, app s.custom iss, app s.locale iss] (s.dflt iss) := by
+  obtain ⟨h1, h2, h3, h4, h5⟩ := subset_true_imp _ _ (c18_sites_partial st hst)
+  rw [dropSources_unconfigured _ _ (fun h => hc (h1 h)) (fun h => hs (h2 h)) (fun h => hp (h3 h)) (fun h => hg (h4 h))
+    (fun h => hl (h5 h)), finalize_priority]
+
+/-- witness (snapshot of a row of the pinned tree): `issues.CreateArrayValidationIssues` finalises with
+    `core.NewParseContext()` — the per-parse map of the caller is dropped, and the message differs -/
+def arrayValidationSnapshot : IssueSite :=
+  ⟨"internal/issues/creators.go:CreateArrayValidationIssues:FinalizeIssue#1", "internal/issues/creators.go:CreateArrayValidationIssues:FinalizeIssue",
+   453, true, "finalize", "?", "", "fresh", "fallback", "flow", "flow", ["small-slice"]⟩
+
+theorem c18_sites_full_false :
+    arrayValidationSnapshot.drops ≠ SrcSet.empty ∧
+    finalize (dropSources arrayValidationSnapshot.drops
+      { rawMsg := "", inst := none, parse := some (fun _ => "per-parse"), custom := none, locale := none, dflt := fun _ => "built-in" }) ()
+      = "built-in" := by
+  decide
+
+example : Gozod.Gen.issueSites.any (fun s => s.gkey == arrayValidationSnapshot.gkey && s.ctx == "fresh") = true := by decide +kernel
+
+/-- **c18_static_dynamic**: the static table and the run agree — a source that the go/ast table says a call drops is never
+    observed to pass at a leaf whose issue that very call finalised (`reached`, captured from the call stack at run time). -/
+def staticDynOk (s : IssueSite) : Bool :=
+  s.reached.all fun l =>
+    match Gozod.Gen.topPasses.lookup l with
+    | some (p, _) => p.inter s.drops == SrcSet.empty
+    | none => false
+
+theorem c18_static_dynamic : ∀ s ∈ Gozod.Gen.issueSites, staticDynOk s = true := by
+  decide +kernel
+
+/-! ## Issue-dependent error maps -/
+
+/-- **dep_spec**: with every source handed on, FinalizeIssue under issue-dependent maps (maps that answer for some issues
+    and decline others) yields the first configured source that HAS an answer for the issue -/
+theorem app_depMap (k : Char) (tag : String) (f : RawFeat) :
+    app (depMap k tag) f = if depAnswers k f = true then tag else "" := by
+  unfold depMap app
+  by_cases h : (k == '-') = true
+  · have hk : k = '-' := by simpa using h
+    subst hk
+    simp [depAnswers]
+  · simp [h]
+
+theorem dep_spec (spec : List Char) (f : RawFeat) : finalize (depSources spec f) f = specDep spec f := by
+  rw [finalize_priority]
+  simp only [depSources, specDep, app_depMap]
+
+/-- a site that passes every configured source meets the demand under issue-dependent maps as well -/
+theorem dep_site (s : Site) (spec : List Char) (f : RawFeat)
+    (h : dropSources s.passes.compl (depSources spec f) = depSources spec f)
+    (hs : ((spec.getD 0 '-') != '-' && !(depAnswers (spec.getD 0 '-') f)) = false) (hb : s.base = "d") :
+    s.winnerDep spec f = specDep spec f := by
+  unfold Site.winnerDep
+  simp only [hs, Bool.false_eq_true, if_false, h, dep_spec, hb]
+  split
+  next h' => exact h'.symm
+  next => rfl
+
+example : specDep ['-', '-', 'T', 'K', '-'] ⟨"too_small", true, true⟩ = "g" ∧
+    specDep ['-', '-', 'T', 'K', '-'] ⟨"invalid_type", true, false⟩ = "p" := by decide
+
+/-! ## Nesting: "at every nesting depth" by induction over the chain of positions -/
+
+theorem finalize_nonempty {ρ : Type} (s : Sources ρ) (iss : ρ) (h : s.dflt iss ≠ "") : finalize s iss ≠ "" := by
+  unfold finalize configLevel
+  by_cases h1 : s.rawMsg = "" <;> by_cases h2 : app s.inst iss = "" <;> by_cases h3 : app s.parse iss = ""
+    <;> by_cases h4 : app s.custom iss = "" <;> by_cases h5 : app s.locale iss = "" <;> simp [h1, h2, h3, h4, h5, h]
+
+theorem dropSources_parse_none {ρ : Type} (d : SrcSet) (s : Sources ρ) :
+    dropSources d { s with parse := none } = dropSources { d with parse := true } s := by
+  obtain ⟨a, b, c, e, f⟩ := d
+  cases c <;> simp [dropSources]
+
+/-- **nested_message**: below ANY chain of positions the message of the leaf's issue is the one FinalizeIssue resolves at
+    the leaf — from all the sources when every position forwards the context, without the per-parse map otherwise.
+    Induction over the chain; the base case is the leaf's site. -/
+theorem nested_message {ρ : Type} (d : SrcSet) (ps : List Position) (s : Sources ρ) (iss : ρ) (h : s.dflt iss ≠ "") :
+    nestedMessage d ps s iss
+      = finalize (dropSources (if ps.all (·.forwardsCtx) then d else { d with parse := true }) s) iss := by
+  induction ps generalizing s with
+  | nil => simp [nestedMessage]
+  | cons p ps ih =>
+    unfold nestedMessage
+    have hne : ∀ (s' : Sources ρ), s'.dflt iss ≠ "" → ∀ d', finalize (dropSources d' s') iss ≠ "" := by
+      intro s' hs' d'; apply finalize_nonempty; simpa [dropSources] using hs'
+    by_cases hp : p.forwardsCtx = true
+    · simp only [hp, if_true, List.all_cons, Bool.true_and]
+      rw [ih s h]
+      exact finalize_check_first _ _ (hne s h _)
+    · have hp' : p.forwardsCtx = false := by simpa using hp
+      simp only [hp', List.all_cons, Bool.false_and, Bool.false_eq_true, if_false]
+      have h' : ({ s with parse := none } : Sources ρ).dflt iss ≠ "" := h
+      rw [ih _ h']
+      rw [finalize_check_first _ _ (hne _ h' _)]
+      by_cases ha : ps.all (·.forwardsCtx) = true
+      · simp [ha, dropSources_parse_none]
+      · simp [ha, dropSources_parse_none]
+
+/-- **c18_every_depth**: a leaf site that drops nothing shows, below every chain of context-forwarding positions and for
+    arbitrary error maps, the first non-empty of the five sources -/
+theorem c18_every_depth {ρ : Type} (ps : List Position) (hps : ps.all (·.forwardsCtx) = true) (s : Sources ρ) (iss : ρ)
+    (h : s.dflt iss ≠ "") :
+    nestedMessage SrcSet.empty ps s iss
+      = firstNonEmpty [s.rawMsg, app s.inst iss, app s.parse iss, app s.custom iss, app s.locale iss] (s.dflt iss) := by
+  rw [nested_message _ _ _ _ h, hps]
+  simp [dropSources_empty, finalize_priority]
+
+def minusParse (a : SrcSet) : SrcSet := { a with parse := false }
+
+/-- (leaf, position) pairs outside the rule: a Literal key schema of a record is matched against the literal's values
+    (exhaustive record keys), not parsed through parseSchemaValueAny, so its issue keeps the per-parse map -/
+def positionExceptions : List (String × String) := [("type-literal", "record-key")]
+
+def positionOk (s : Site) : Bool :=
+  positionExceptions.contains (s.leaf, s.wrapper) ||
+  match Gozod.Gen.topPasses.lookup s.leaf, Gozod.Gen.positions.find? (fun p => p.name == s.wrapper) with
+  | some (tp, tp2), some p =>
+    if p.forwardsCtx then s.passes == tp && s.passesSilentCheck == tp2
+    else s.passes == minusParse tp && s.passesSilentCheck == minusParse tp2
+  | _, _ => false
+
+/-- **c18_positions_exact** (decided over the regenerated wiring, every position × every leaf): at a position that
+    forwards the context the sources that reach the leaf's issue are exactly those that reach it at top level; at one that
+    does not, exactly those minus the per-parse map — the per-position table the induction of `nested_message` rests on. -/
+theorem c18_positions_exact : ∀ s ∈ Gozod.Gen.sites, positionOk s = true := by
+  decide +kernel
+
+example : nestedMessage (ρ := Unit) SrcSet.empty [⟨"slice-element", true⟩, ⟨"record-key", false⟩, ⟨"lazy", true⟩]
+    { rawMsg := "", inst := none, parse := some (fun _ => "p"), custom := some (fun _ => "g"), locale := none, dflt := fun _ => "d" } ()
+    = "g" := by decide
+
 /-! ## Locales -/
 
-/-- **c18_locales**: every bundled locale returns a non-empty message for every issue kind of the
-    regenerated catalogue. -/
-theorem c18_locales : ∀ row ∈ Gozod.Gen.localeTable, ∀ cell ∈ row.2, cell.2 = true := by decide +kernel
+/-- **c18_locales**: every bundled locale returns a non-empty message for every entry of the regenerated parameter
+    table (every variation of origin / threshold / inclusive / format / detail / expected × input kind / keys / values /
+    divisor that selects another text path of a formatter), and every row covers every column. -/
+theorem c18_locales : ∀ row ∈ Gozod.Gen.localeRows,
+    row.2.length = Gozod.Gen.localeKinds.length ∧ row.2.all (fun b => b) = true := by decide +kernel
 
-/-- the kinds the property names; the catalogue must contain each of them for every locale -/
-def requiredKinds : List String := [
-  "invalid_type:string", "invalid_type:int", "invalid_type:float64", "invalid_type:bool", "invalid_type:object",
-  "invalid_type:slice", "invalid_type:array", "invalid_type:map", "invalid_type:record",
-  "too_small:string", "too_big:string", "too_small:number", "too_big:number", "too_small:int", "too_big:int",
-  "too_small:array", "too_big:array", "too_small:slice", "too_big:slice", "too_small:map", "too_big:map",
-  "too_small:set", "too_big:set", "too_small:file", "too_big:file",
-  "invalid_format:email", "invalid_format:url", "invalid_format:uuid", "invalid_format:regex", "invalid_format:starts_with",
-  "invalid_format:ends_with", "invalid_format:includes", "invalid_format:datetime", "invalid_format:date", "invalid_format:time",
-  "invalid_format:duration", "invalid_format:ipv4", "invalid_format:ipv6", "invalid_format:cidrv4", "invalid_format:cidrv6",
-  "invalid_format:base64", "invalid_format:base64url", "invalid_format:json_string", "invalid_format:e164", "invalid_format:jwt",
-  "invalid_format:emoji", "invalid_format:nanoid", "invalid_format:guid", "invalid_format:cuid", "invalid_format:cuid2",
-  "invalid_format:ulid", "invalid_format:xid", "invalid_format:ksuid", "invalid_format:mac", "invalid_format:lowercase",
-  "invalid_format:uppercase",
-  "not_multiple_of", "unrecognized_keys", "invalid_union", "invalid_value", "invalid_element:array", "invalid_key:bare", "custom"]
+/-- the kinds the property names (columns of the parameter table) -/
+def requiredKinds : List String :=
+  ["string", "int", "float64", "bool", "object", "slice", "array", "map", "record"].map (fun t => "invalid_type:" ++ t ++ ":in-nil") ++
+  (["string", "number", "int", "array", "slice", "map", "set", "file"].flatMap fun o =>
+    ["too_small:" ++ o ++ ":th1:inc1", "too_big:" ++ o ++ ":th1:inc1", "too_small:" ++ o ++ ":th1:inc2", "too_big:" ++ o ++ ":th2:inc0"]) ++
+  (["email", "url", "uuid", "regex", "starts_with", "ends_with", "includes", "datetime", "date", "time", "duration", "ipv4", "ipv6",
+    "cidrv4", "cidrv6", "base64", "base64url", "json_string", "e164", "jwt", "emoji", "nanoid", "guid", "cuid", "cuid2", "ulid", "xid",
+    "ksuid", "mac", "lowercase", "uppercase"].flatMap fun f => ["invalid_format:" ++ f ++ ":det0", "invalid_format:" ++ f ++ ":det1"]) ++
+  ["not_multiple_of:div0", "not_multiple_of:div1", "not_multiple_of:div2", "unrecognized_keys:n0", "unrecognized_keys:n1",
+   "unrecognized_keys:n2", "invalid_union:bare", "invalid_union:errors", "invalid_union:xor", "invalid_value:n0", "invalid_value:n1",
+   "invalid_value:n2", "invalid_element:array", "invalid_element:", "invalid_key:record", "invalid_key:map", "invalid_key:bare",
+   "custom:bare", "custom:props", "zz_unknown_code:bare"]
 
 def requiredLocales : List String := [
   "ar", "bg", "cs", "da", "de", "en", "es", "fa", "fi", "fr", "he", "hu", "id", "it", "ja", "ko", "ms", "nl", "no",
   "pl", "pt", "ru", "sv", "ta", "th", "tr", "uk", "ur", "vi", "zh", "zh-CN", "zh-TW"]
 
-/-- **c18_locales_cover**: the regenerated table has a row for every bundled locale and, in every
-    row, a (non-empty) cell for every kind the property names. -/
+/-- **c18_locales_cover**: the regenerated table has a row for every bundled locale and a column for every kind the
+    property names (all non-empty by `c18_locales`). -/
 theorem c18_locales_cover :
-    (∀ l ∈ requiredLocales, (Gozod.Gen.localeTable.lookup l).isSome = true) ∧
-    (∀ row ∈ Gozod.Gen.localeTable, ∀ k ∈ requiredKinds, row.2.lookup k = some true) := by
+    (∀ l ∈ requiredLocales, (Gozod.Gen.localeRows.lookup l).isSome = true) ∧
+    (∀ k ∈ requiredKinds, Gozod.Gen.localeKinds.contains k = true) := by
+  decide +kernel
+
+/-- **c18_locales_producible**: every (code, origin / format / expected type) the library's creation sites name in the
+    source — the static catalogue `Gen.issueSites`, as keys `Gen.producibleKinds` — is a column of the parameter table:
+    "every issue the library can produce" is read off the source, not off a hand-made list. -/
+theorem c18_locales_producible : ∀ k ∈ Gozod.Gen.producibleKinds, Gozod.Gen.localeKinds.contains k = true := by
   decide +kernel
 
 section SetConfigHistories
